@@ -19,7 +19,11 @@ RULE = ("policy (L1, family 2): histories of SEVERAL accepted messages (policy -
         "adm = one-directional acceptance + resulting state, inv/powenv = "
         "the theorems' invariant / math.Pow assumption evaluated on the implementation's state. "
         "userhist (L1, family 1): adversarial permissionless clp/margin/bank/dispensation/ethbridge messages (amounts 0, 1, 2^64+-1, 2^128, "
-        "dust, near pool depths) under policies inside the envelope, all hooks under recover() after every block. "
+        "dust, near pool depths) under policies inside the envelope, all hooks under recover() after every block; every third history in a DEEP "
+        "world (users hold 2^135 of each denom; pools created with native depth 10^18 or 2^64..2^128+1 and external depth 1, 2, 10^18 or 2^64..2^128+1; "
+        "deposits, swaps and rewards-bucket top-ups from the same set, plus 2^255 / 2^256-1 that only the bank refuses); directed: F16, and the "
+        "demonstration of seeded change C10-6 (pool 2^128 rowan, bucket 2^128 / 2^128-1 / 3*2^128 ceth, default rewards parameters, height jumped "
+        "past the 14-day lock period, epoch ends). "
         "confine (L2, family 1): signed transactions through the full app; a panicking user message vs a plainly failing one on twin "
         "chains: error result and equal app hashes. non-trivial = distinct bb/eb/adm/powenv/confined line")
 TRUSTED_BASE = [
@@ -55,6 +59,16 @@ UNPROVED = [
     "EInvP is not shown to be re-established by the EndBlocker itself (rewards grow pool balances): it is re-assumed per block",
     "hooks outside the model — epochs BeginBlocker -> clp AfterEpochEnd (F16), margin BeginBlocker (F21), dispensation BeginBlocker, "
     "cosmos x/mint BeginBlocker (F19): tested only (chk c10.hook / c10.safe on the real keepers), no theorem",
+    "arithmetic envelope of the epoch hook (epochs BeginBlocker -> clp AfterEpochEnd), NOT modelled, what the unchanged code needs per asset "
+    "with bucket B, eligible provider units u_i, pool units P, depths R (native) / A (external), liabilities nl / el, reward a_i: "
+    "(1) sum u_i < 2^256 (sdk.Int.Add); (2) share_i = Dec(u_i).Quo(Dec(sum)) needs sum != 0 (guard F16), result <= 1; "
+    "(3) share_i.MulInt(B) needs B*10^18 < 2^315, i.e. B < 2^255.2; (4) pool mode: R+nl, A+el < 2^256 (ExtractDebt); the symmetry test "
+    "compares A/…, R/… as big.Rat (NO bound — seeded change C10-6 replaces it by sdk.Uint cross products that need R*a_i, A*r < 2^256); the "
+    "asymmetric swap amount s is a big.Rat expression with 0 <= s <= a_i < 2^256; P*(a_i-s)/(A+s) < 2^256 and P + that < 2^256 "
+    "(at most about P*sqrt(a_i/A), e.g. 2^128*2^64); A + a_i < 2^256; provider units + new units < 2^256; (5) pool.RewardAmountExternal + B "
+    "< 2^256, provider reward coins + a_i < 2^256. All of these hold inside the section-5 envelope (deposits <= 2^128, supply < 2^200); "
+    "tested by `userhist` with pools, deposits and buckets at 2^64, 2^100, 2^127, 2^128-1, 2^128, 2^128+1, 3*2^128 and external depth 1 / 2, "
+    "in both reward modes",
     "confinement of a panicking user message (error result, state unchanged): tested at L2 on twin chains only",
     "UpdateRewardsParams, UpdateSwapFeeParams, SetSymmetryThreshold, UpdateStakingRewardParams: no safety theorem (their parameters are "
     "read by user-message paths or by the unmodelled hooks); the repaired F19 clauses are opaque to the extractor",
